@@ -154,7 +154,13 @@ Lemma doc_paste_chars_n t c data mode n :
           ++ repeat_str (ctext data) (Z.to_nat n)
           ++ skipn (Z.to_nat (paste_at mode c (len t))) t, c').
 Proof.
-  intros Hc Hty Hm. unfold doc_paste. rewrite Hty.
+  intros Hc Hty Hm. unfold doc_paste.
+  destruct (Z.ltb_spec n 1) as [Hlt|Hge].
+  { (* count < 1: the document is returned unchanged, which is zero copies *)
+    exists c. cbn [dtext dcur]. unfold mk_document. destruct (len t <? c) eqn:E; [lia|].
+    replace (Z.to_nat n) with O by lia. cbn [repeat_str app].
+    now rewrite firstn_skipn. }
+  rewrite Hty.
   change (CHARACTERS =? CHARACTERS) with true. cbn [dtext dcur].
   unfold text_before_cursor, text_after_cursor; cbn [dtext dcur]. unfold paste_at, str_mul.
   pose proof (len_nonneg (ctext data)) as Hd.
@@ -229,33 +235,130 @@ Proof.
   cbn. discriminate.
 Qed.
 
-(* C09-F4: dd tests the joined strings instead of the line lists: when every
-   line before (or after) the deleted ones is empty, an empty line is lost that
-   the register does not hold.  "\nfoo\nbar", cursor on foo: dd -> "bar". *)
+(* ---------------------------------------------------------------------- *)
+(* dd (after fix deb887f): exactly the addressed lines go, and they are what
+   the register gets *)
 Definition dd_spec (s : st) (arg : Z) : str :=
   let d := cur_doc s in
   let row := cursor_position_row d in
   join [NL] (slice_to (lines d) row ++ slice_from (lines d) (row + arg)).
 
-Lemma vi_dd_refuted :
-  exists s arg, Inv (sb s) /\ 1 <= arg /\
-    exists s', vi_dd s arg = (0, s') /\ btext (sb s') <> dd_spec s arg.
+Lemma join_app sep (a b : list str) :
+  join sep (a ++ b) =
+  match a, b with
+  | [], _ => join sep b
+  | _, [] => join sep a
+  | _, _ => join sep a ++ sep ++ join sep b
+  end.
 Proof.
-  exists (mkst (mkbuf [10; 102; 111; 111; 10; 98; 97; 114] 1) None [] None 0 [] true), 1.
-  split; [unfold Inv; cbn; lia|]. split; [lia|].
-  eexists. split; [vm_compute; reflexivity|]. vm_compute. discriminate.
+  induction a as [|x a IH]; [reflexivity|].
+  destruct a as [|y a].
+  - cbn [app join]. destruct b; [reflexivity|reflexivity].
+  - change ((x :: y :: a) ++ b) with (x :: ((y :: a) ++ b)).
+    change (join sep (x :: (y :: a) ++ b)) with (x ++ sep ++ join sep ((y :: a) ++ b)).
+    rewrite IH. destruct b as [|z b].
+    + reflexivity.
+    + change (join sep (x :: y :: a)) with (x ++ sep ++ join sep (y :: a)).
+      now rewrite <- !app_assoc.
 Qed.
 
-(* C09-F3: in visual block mode the d / y operators go through
-   TextObject.cut, which moves the selection end one to the left also for BLOCK
-   objects: what they store is not the selected block (which is what x, through
-   Buffer.cut_selection, stores).  "abc", C-v at 0: y stores "a\na", x "a". *)
-Lemma visual_block_operator_refuted :
-  exists s sel, Inv (sb s) /\ snd sel = BLOCK /\ 0 <= fst sel <= len (btext (sb s)) /\
-    ctext (ring_get (sring (snd (vi_visual s sel 1 0)))) <>
-    ctext (snd (doc_cut_selection (cur_doc s) sel true)).
+Lemma len_lstrip_le p (x : str) : len (lstrip_by p x) <= len x.
+Proof.
+  induction x as [|c x IH]; cbn [lstrip_by]; [lia|].
+  destruct (p c); [rewrite len_cons; lia|lia].
+Qed.
+
+Lemma vi_dd_exact s arg :
+  exists s', vi_dd s arg = (0, s') /\
+    btext (sb s') = dd_spec s arg /\
+    ring_get (sring s') =
+      mkclip (join [NL] (slice2 (lines (cur_doc s)) (cursor_position_row (cur_doc s))
+                                (cursor_position_row (cur_doc s) + arg))) LINES.
+Proof.
+  unfold vi_dd, dd_spec. cbv zeta beta.
+  set (ls := lines (cur_doc s)). set (row := cursor_position_row (cur_doc s)).
+  set (A := slice_to ls row). set (B := slice_from ls (row + arg)).
+  set (before := if (match A with [] => false | _ :: _ => true end)
+                    && (match B with [] => false | _ :: _ => true end)
+                 then join [NL] A ++ [NL] else join [NL] A).
+  set (after := join [NL] B).
+  assert (Hdoc : mk_document (before ++ after)
+                   (len before + len after - len (lstrip_by (Z.eqb SP) after))
+                 = Some (before ++ after, len before + len after - len (lstrip_by (Z.eqb SP) after))).
+  { unfold mk_document. rewrite len_app. pose proof (len_lstrip_le (Z.eqb SP) after).
+    pose proof (len_nonneg (lstrip_by (Z.eqb SP) after)).
+    destruct (_ <? _) eqn:E; [lia|reflexivity]. }
+  rewrite Hdoc. eexists. split; [reflexivity|].
+  cbn [with_ring set_doc upd with_buf sb sring btext]. split; [|apply ring_get_set].
+  unfold before, after. rewrite join_app.
+  destruct A as [|a0 A]; destruct B as [|b0 B]; cbn [andb]; try reflexivity.
+  - now rewrite app_nil_r.
+  - now rewrite <- app_assoc.
+Qed.
+
+(* ---------------------------------------------------------------------- *)
+(* visual block (after e0cf816): d / y / "rd / "ry (through TextObject.cut)
+   store the same block as x (through Buffer.cut_selection) whenever the two
+   corners differ *)
+Lemma cut_loop_nc t rs : forall lt nc nc' rem parts,
+  fst (fst (fst (cut_loop t rs lt nc rem parts))) = fst (fst (fst (cut_loop t rs lt nc' rem parts))) /\
+  snd (fst (cut_loop t rs lt nc rem parts)) = snd (fst (cut_loop t rs lt nc' rem parts)) /\
+  snd (cut_loop t rs lt nc rem parts) = snd (cut_loop t rs lt nc' rem parts).
+Proof.
+  induction rs as [|[f to] rs IH]; intros lt nc nc' rem parts; cbn [cut_loop].
+  - repeat split.
+  - apply IH.
+Qed.
+
+Lemma selection_ranges_ext t c1 o1 c2 o2 ty vi :
+  Z.min c1 o1 = Z.min c2 o2 -> Z.max c1 o1 = Z.max c2 o2 ->
+  selection_ranges (mkdoc t c1) (o1, ty) vi = selection_ranges (mkdoc t c2) (o2, ty) vi.
+Proof.
+  intros Hmin Hmax. unfold selection_ranges. cbn [dcur]. rewrite Hmin, Hmax. reflexivity.
+Qed.
+
+Lemma cut_data_ext t c1 o1 c2 o2 ty vi :
+  Z.min c1 o1 = Z.min c2 o2 -> Z.max c1 o1 = Z.max c2 o2 ->
+  snd (doc_cut_selection (mkdoc t c1) (o1, ty) vi) = snd (doc_cut_selection (mkdoc t c2) (o2, ty) vi).
+Proof.
+  intros Hmin Hmax. unfold doc_cut_selection.
+  rewrite (selection_ranges_ext t c1 o1 c2 o2 ty vi Hmin Hmax). cbn [dtext dcur snd].
+  destruct (cut_loop_nc t (selection_ranges (mkdoc t c2) (o2, ty) vi) 0 c1 c2 [] []) as [_ [_ Hp]].
+  destruct (cut_loop t _ 0 c1 [] []) as [[[l1 n1] r1] p1].
+  destruct (cut_loop t _ 0 c2 [] []) as [[[l2 n2] r2] p2].
+  cbn [snd] in Hp |- *. now subst.
+Qed.
+
+Lemma visual_block_operator_stores_block t cur orig nd data :
+  orig <> cur ->
+  tobj_cut (mkdoc t cur) (orig - cur) 0 TBLOCK = Some (nd, data) ->
+  data = snd (doc_cut_selection (mkdoc t cur) (orig, BLOCK) true).
+Proof.
+  intros Hne. unfold tobj_cut, operator_range. cbn [dcur dtext].
+  change (TBLOCK =? EXCLUSIVE) with false. change (TBLOCK =? INCLUSIVE) with false.
+  change (TBLOCK =? LINEWISE) with false. change (TBLOCK =? TBLOCK) with true.
+  cbn [andb orb negb].
+  change (tobj_selection_type TBLOCK) with BLOCK.
+  destruct (orig - cur <? 0) eqn:Es.
+  - destruct (0 <=? orig - cur) eqn:E0; [lia|].
+    destruct (len t <? 0 + cur) eqn:El; [discriminate|].
+    intros H. injection H as H. apply (f_equal snd) in H. cbn [snd] in H. rewrite <- H.
+    apply cut_data_ext; lia.
+  - destruct (orig - cur <=? 0) eqn:E0; [lia|].
+    destruct (len t <? orig - cur + cur) eqn:El; [discriminate|].
+    intros H. injection H as H. apply (f_equal snd) in H. cbn [snd] in H. rewrite <- H.
+    apply cut_data_ext; lia.
+Qed.
+
+(* C09-F5 (residual): when the two corners coincide (a block of one cell) the
+   empty-range rule of TextObject.cut (commit f3ffc71) makes d / y a no-op,
+   while x cuts the cell.  "abc", C-v at 0: y stores nothing, x stores "a". *)
+Lemma visual_block_single_cell_refuted :
+  exists s sel, Inv (sb s) /\ snd sel = BLOCK /\ fst sel = bcur (sb s) /\
+    sring (snd (vi_visual s sel 1 0)) = sring s /\
+    ctext (snd (doc_cut_selection (cur_doc s) sel true)) <> [].
 Proof.
   exists (mkst (mkbuf [97; 98; 99] 0) None [] None 0 [] true), (0, BLOCK).
-  split; [unfold Inv; cbn; lia|]. split; [reflexivity|]. split; [cbn; lia|].
-  vm_compute. discriminate.
+  split; [unfold Inv; cbn; lia|]. split; [reflexivity|]. split; [reflexivity|].
+  split; [vm_compute; reflexivity|]. vm_compute. discriminate.
 Qed.
